@@ -167,10 +167,24 @@ fn rac_lexer_literals() {
     let tails = ["", "a", " b", "a@b.c", "a@b.co d", "//a.b/c", "1", ".", "\n"];
     let mut cases = 0u64;
     let mut nontrivial = 0u64;
+    // C01 quantifies over every prefix of a text (a document being typed): every proper prefix of every literal, at the very end
+    // of the text, is a case as well
+    let mut texts: Vec<String> = vec![];
     for lit in RAC_LEX_LITERALS.iter() {
         for h in heads.iter() {
-            for tl in tails.iter() {
-                let text = format!("{}{}{}", h, lit, tl);
+            for tl in tails.iter() { texts.push(format!("{}{}{}", h, lit, tl)); }
+        }
+        let cs: Vec<char> = lit.chars().collect();
+        for k in 1..cs.len() {
+            let pre: String = cs[..k].iter().collect();
+            texts.push(pre.clone());
+            texts.push(format!("a {}", pre));
+        }
+    }
+    {
+        {
+            for text in texts.iter() {
+                let text = text.clone();
                 let t: Vec<char> = text.chars().collect();
                 for (name, f) in lexers.iter() {
                     let r = std::panic::catch_unwind(|| f(&t));
@@ -200,5 +214,5 @@ fn rac_lexer_literals() {
             }
         }
     }
-    println!("RAC-OK lexer_literals cases={} nontrivial={} bound=literals-of-lexing/*.rs({})x4-heads-x9-tails", cases, nontrivial, RAC_LEX_LITERALS.len());
+    println!("RAC-OK lexer_literals cases={} nontrivial={} bound=literals-of-lexing/*.rs({})x4-heads-x9-tails+every-prefix", cases, nontrivial, RAC_LEX_LITERALS.len());
 }
